@@ -48,11 +48,14 @@ class C06(Property):
     exact_text = True
     quick_n = 3000
     thorough_n = 120000
-    partial = ["that the stderr text carries the conversion/guard message is a theorem about Model/Message.v (tied byte for byte for "
-               "top-level failures on UTF-8 lines); for failures handed out of a subcommand it is decided by the oracle"]
+    partial = []
 
     def generate(self, rng, tier, n):
         cases = []
+        # one definition + line per arm of Message::render: the texts are compared byte for byte
+        for r in range(3 if tier == "quick" else 100):
+            for i, (tag, opts, argv, unset) in enumerate(gen.message_cases(rng)):
+                cases.append(Case("m%d_%d" % (r, i), opts, argv, unset=unset, tags={"role": "msg", "group": "m%d_%d" % (r, i), "msg": tag}))
         k = 0
         while len(cases) < n:
             if rng.random() < 0.08:
